@@ -114,12 +114,14 @@ def sast_ids():
 
 
 @st.composite
-def fault_plan(draw):
-    pipeline = draw(st.sampled_from(["plain", "plain", "plain", "sast", "sast", "rule"]))
+def fault_plan(draw, force=None):
+    """force = (pipeline, fault, inline): the deterministic grid of the sweep; None = all drawn."""
+    pipeline = force[0] if force else draw(st.sampled_from(["plain", "plain", "plain", "sast", "sast", "rule"]))
     if pipeline == "plain":
         cms = draw(st.lists(st.sampled_from(PLAIN), min_size=1, max_size=3, unique=True))
     elif pipeline == "rule":
-        cms = [draw(st.sampled_from(RULE_DET))] + draw(st.lists(st.sampled_from(PLAIN), max_size=1))
+        # (grid cells keep to the rule-detected codemod alone, so that the victim is one of its files)
+        cms = [draw(st.sampled_from(RULE_DET))] + (draw(st.lists(st.sampled_from(PLAIN), max_size=1)) if not force else [])
     else:
         tool = draw(st.sampled_from(["sonar", "semgrep", "defectdojo"]))
         cms = draw(st.lists(st.sampled_from([c for c in sast_ids() if c.startswith(tool)]), min_size=1, max_size=2, unique=True))
@@ -129,16 +131,46 @@ def fault_plan(draw):
         cid = cms[k % len(cms)] if k < len(cms) else draw(st.sampled_from(cms))
         seeds, sast = engine.seeds_for(cid)
         if sast:
-            s = draw(st.sampled_from(sast))
-            files.append({"codemod": cid, "parts": [{"code": s["code"], "results": s["results"], "ops": []}], "file_ops": []})
+            # one or two reported sites per file: a failed file then carries several findings of one rule
+            ss = draw(st.lists(st.sampled_from(sast), min_size=1, max_size=2))
+            files.append({"codemod": cid, "parts": [{"code": s["code"], "results": s["results"], "ops": [["wrap", "def"]] if len(ss) > 1 else []} for s in ss], "file_ops": []})
         else:
             files.append({"codemod": cid, "parts": [{"code": draw(st.sampled_from(seeds)), "results": None, "ops": draw(st.sampled_from([[], [["wrap", "def"]]]))}], "file_ops": []})
-    fault = draw(st.sampled_from(CONTENT_FAULTS + BEHAVIOUR_FAULTS + ["visit-raises"]))
-    return {"pipeline": pipeline, "codemods": cms, "files": files, "victim": draw(st.integers(0, n - 1)), "fault": fault, "j": draw(st.integers(1, 60)), "workers": draw(st.sampled_from([1, 1, 3]))}
+    fault = force[1] if force else draw(st.sampled_from(CONTENT_FAULTS + BEHAVIOUR_FAULTS + ["visit-raises"]))
+    return {"pipeline": pipeline, "codemods": cms, "files": files, "victim": draw(st.integers(0, n - 1)), "fault": fault, "j": draw(st.integers(1, 60)), "workers": draw(st.sampled_from([1, 1, 3])),
+            # bad-utf8 only: the invalid bytes go into a string literal on the same line as each statement instead of a trailing comment
+            "inline": force[2] if force else draw(st.booleans())}
 
 
-def corrupt(data: bytes, fault: str) -> bytes:
+def inline_bad_bytes(data: bytes) -> bytes:
+    """Invalid UTF-8 inside a string literal at the start of every simple statement: the bad bytes sit on the same
+    line as, and to the left of, whatever a detector matches there."""
+    import ast
+
+    try:
+        tree = ast.parse(data)
+    except (SyntaxError, ValueError):
+        return data + b"\n# \xff\xfe\x80 not utf-8\n"
+    starts = set()
+    for n in ast.walk(tree):
+        if isinstance(n, ast.stmt) and not isinstance(n, (ast.FunctionDef, ast.AsyncFunctionDef, ast.ClassDef, ast.If, ast.For, ast.AsyncFor, ast.While, ast.With, ast.AsyncWith, ast.Try, ast.Match)):
+            starts.add(n.lineno)
+    # a statement that is not the first thing on its line (`a = 1; b = 2`, `if x: y`) is left alone
+    lines = data.split(b"\n")
+    for ln in sorted(starts):
+        raw = lines[ln - 1]
+        body = raw.lstrip(b" \t")
+        indent = raw[: len(raw) - len(body)]
+        first = min((n.col_offset for n in ast.walk(tree) if isinstance(n, ast.stmt) and n.lineno == ln), default=0)
+        if first == len(indent) and not body.startswith((b"from __future__", b"@")):
+            lines[ln - 1] = indent + b"_b = '\xff\xfe'; " + body
+    return b"\n".join(lines)
+
+
+def corrupt(data: bytes, fault: str, inline: bool = False) -> bytes:
     if fault == "bad-utf8":
+        if inline:
+            return inline_bad_bytes(data)
         return data + b"\n# \xff\xfe\x80 not utf-8\n"
     if fault == "nul":
         return data + b"\nz = 1\x00\n"
@@ -149,17 +181,50 @@ def corrupt(data: bytes, fault: str) -> bytes:
     return data
 
 
-def build(case, root: Path, with_fault: bool):
+def render_all(case):
     rendered = []
     for fc in case["files"]:
         rd = progspace.render(fc, "code.py")
         rendered.append((fc, dict(rd)))
+    # DefectDojo findings are identified by id: copies of a fixture get ids of their own
+    nid = 7000
+    for _, rd in rendered:
+        doc = rd.get("results")
+        if doc and progspace.doc_format(doc) == "defectdojo":
+            for r in doc["results"]:
+                nid += 1
+                r["id"] = nid
+    return rendered
+
+
+def victim_finding_ids(case):
+    """ids of the DefectDojo findings reported on the victim (None for the other tools, whose ids are rule ids)."""
+    doc = render_all(case)[case["victim"]][1].get("results")
+    if doc and progspace.doc_format(doc) == "defectdojo":
+        return sorted(str(r["id"]) for r in doc["results"])
+    return None
+
+
+def victim_finding_count(case):
+    doc = render_all(case)[case["victim"]][1].get("results")
+    if not doc:
+        return 0
+    fmt = progspace.doc_format(doc)
+    if fmt == "defectdojo":
+        return len(doc["results"])
+    if fmt == "sonar":
+        return len(doc.get("issues") or []) + len(doc.get("hotspots") or [])
+    return sum(len(r.get("results") or []) for r in doc["runs"])
+
+
+def build(case, root: Path, with_fault: bool):
+    rendered = render_all(case)
     v = case["victim"]
     fault = case["fault"]
     vic_case, vic_rd = rendered[v]
     if fault in CONTENT_FAULTS:
         if with_fault:
-            vic_rd["data"] = corrupt(vic_rd["data"], fault)
+            vic_rd["data"] = corrupt(vic_rd["data"], fault, case.get("inline", False))
         else:
             vic_rd["data"] = b"ok = 1\n"  # valid, non-triggering stand-in
     else:
@@ -208,7 +273,7 @@ def eval_plan(case, stats=None, j_override=None):
         res0, b0, a0, _, _ = run_one(case, Path(rz), False)
         rootF = Path(rf)
     vrel = rels[case["victim"]]
-    feats = ["fault:" + fault, "pipeline:" + case["pipeline"]]
+    feats = ["fault:" + fault + ("-inline" if fault == "bad-utf8" and case.get("inline") else ""), "pipeline:" + case["pipeline"]]
     labels = feats + [f"nfiles={len(rels)}", f"victim-index={case['victim']}", f"workers={case['workers']}"]
     comp = "run"
 
@@ -313,6 +378,13 @@ def eval_plan(case, stats=None, j_override=None):
                 if c in selected_by and not unfixed_by.get(c):
                     viol("failed-victim-findings-not-reported-unfixed", {"file": vrel, "codemod": c})
                     break
+                # every finding of the failed file is accounted for, not one per rule
+                ids = victim_finding_ids(case)
+                if c in selected_by and ids is not None:
+                    got = sorted(str(u.get("id")) for u in unfixed_by.get(c, []))
+                    if [i for i in ids if i not in got]:
+                        viol("failed-victim-finding-missing-from-unfixed", {"file": vrel, "codemod": c, "reported": ids, "unfixed": got})
+                        break
     nontriv = bool(selected_by) and others_changed >= 1 and (fault not in ("visit-raises",) or fired)
     st_.case([case, j_override], nontriv, labels + (["fault-fired"] if fired else []) + (["victim-failed"] if failed_by else []),
              sample={"fault": fault, "pipeline": case["pipeline"], "codemods": case["codemods"], "files": rels, "victim": vrel, "failed_by": failed_by, "others_changed": others_changed})
@@ -332,14 +404,24 @@ def count_nodes(case):
             return 0
 
 
-BUDGET = {"quick": {"n": 16, "enumerate": 0}, "thorough": {"n": 120, "enumerate": 2}}
+BUDGET = {"quick": {"n": 10, "enumerate": 0, "grid_reps": 1}, "thorough": {"n": 120, "enumerate": 2, "grid_reps": 6}}
+
+# deterministic grid: every pipeline kind x every fault kind (bad-utf8 in both placements) is reached in every run,
+# whatever the random plans draw
+GRID = [(p, f, inl) for p in ("plain", "sast", "rule") for f, inl in
+        [("bad-utf8", False), ("bad-utf8", True), ("nul", False), ("syntax-error", False), ("empty", False), ("vanish", False), ("parse-raises", False), ("visit-raises", False)]]
 
 
 def shards(tier, seed):
     b = BUDGET[tier]
     # quick: four shards each enumerate every visited-node index for one SAST plan (the fault position matters
     # relative to the point where the transformer records its change); thorough: every shard, any pipeline
-    return [{"n": b["n"], "enumerate": b["enumerate"] if tier == "thorough" else (1 if i < 4 else 0), "enum_pipelines": ["plain", "sast"] if tier == "thorough" else ["sast"], "seed": seed * 1000 + i} for i in range(16)]
+    out = [{"n": b["n"], "enumerate": b["enumerate"] if tier == "thorough" else (1 if i < 4 else 0), "enum_pipelines": ["plain", "sast"] if tier == "thorough" else ["sast"], "seed": seed * 1000 + i, "grid": [], "enum_cap": 80 if tier == "thorough" else 30} for i in range(16)]
+    # the rule pipeline (real semgrep) is the slow one: spread its combinations first
+    cells = (sorted(GRID, key=lambda c: c[0] != "rule") + [("rule", "bad-utf8", True), ("rule", "bad-utf8", True)]) * b["grid_reps"]
+    for k, cell in enumerate(cells):
+        out[(k + seed) % 16]["grid"].append(list(cell) + [k])
+    return out
 
 
 def run_shard(spec):
@@ -351,11 +433,13 @@ def run_shard(spec):
         if c["pipeline"] in spec["enum_pipelines"] and c["pipeline"] != "rule" and enum_left[0] > 0 and c["fault"] in ("visit-raises", "parse-raises", "bad-utf8"):
             c = dict(c, fault="visit-raises")
             enum_left[0] -= 1
-            n = min(count_nodes(c), 80)
+            n = min(count_nodes(c), spec.get("enum_cap", 80))
             stats.labels["visit-index-enumerations"] += 1
             for j in range(1, n + 1):
                 eval_plan(c, stats, j_override=j)
 
+    for pipeline, fault, inline, rep in spec.get("grid", []):
+        core.drive(fault_plan(force=(pipeline, fault, inline)), lambda c: eval_plan(c, stats), 1, spec["seed"] * 31 + rep * 7 + engine.hash_str(pipeline + fault + str(inline)) % 1000)
     core.drive(fault_plan(), fn, spec["n"], spec["seed"])
     return stats
 
